@@ -60,25 +60,29 @@ CHECKS = {
             "Tied to the code by certificates whose SPKI carries chosen (N, e) through crypto/x509 and the zcrypto parser, evaluated by the real lints and by the model in Coq.",
             "DESIGN.md 5/C16", "CheckApplies of the dated lints is observed, not modelled (cases are those on which the lint applies)."),
     "C19": (True, "Coq theorems over N (CIDR nesting, completeness, monotonicity, single-address equivalence, soundness) under kernel-checked table obligations + in-Coq correspondence on addresses, networks and lints",
-            "Proof: for every address and every canonical CIDR network: a network containing a reserved address intersects, super-nets of intersecting networks intersect, a single-address network answers like the address test, "
+            "Proof: for every address and every network of any prefix length, whether or not its stated address is the first address of the range (an iPAddress name constraint is address||mask): a network containing a reserved address "
+            "intersects, super-nets of intersecting networks intersect, two spellings of one range get one answer (what failed for ::ffff mask /112 before fix 608ffca), a single-address network answers like the address test, "
             "and intersects only fires on networks that contain a reserved address - given the obligations table_wf and table_closed over the network table regenerated from the build (table_closed is what failed for 127/8 before the fix); "
             "every special-purpose block of the statement is reserved in full and the listed public addresses are not (data obligations).",
-            "DESIGN.md 5/C19", "Non-canonical bases and non-contiguous masks are outside the property's quantifier."),
+            "DESIGN.md 5/C19", "Non-contiguous masks are outside the property's quantifier (a CIDR network has a prefix length)."),
     "C11": (True, "Coq theorems over the configuration-routing model (all documents, all configurable lints of the three kinds) + kernel-checked obligation on non-table sections + in-Coq correspondence on generated TOML",
             "Proof: a lint's run depends on the document only through the node stored under its own name (so none/empty/unrelated-only documents are indistinguishable and setting section A changes no lint other than A); "
             "a section the decoder rejects, or a non-table node (given the obligation that applying one is an error - which failed before the fix), makes exactly that lint fatal with the configuration-error text and nothing panics; "
             "filtered registries carry the configuration value they were created with. The go-toml decoder is an oracle. Tied to the code by generated documents x scripted configurable lints of all kinds, the four real configurable "
-            "lints under inapplicable sections, the example configuration, and a SetConfiguration/Filter/run op sequence.",
+            "lints under inapplicable sections, the example configuration, a SetConfiguration/Filter/run op sequence, and the command-line tool with -config alone and next to every kind of selection flag.",
             "DESIGN.md 5/C11", "go-toml Unmarshal is an oracle; none of the registered lints embeds a higher-scoped configuration (checked by the census of Configure() types is not automated: stated)."),
-    "C18": (True, "Coq theorems (validity iff over any well-formed table, date parser, lint-level iff) + kernel-checked well-formedness of the table regenerated from the build + in-Coq correspondence at every entry's boundaries",
+    "C18": (True, "Coq theorems (validity iff over any well-formed table, date parser, lint-level iff) + kernel-checked well-formedness of the table regenerated from the build + in-Coq correspondence at every entry's boundaries + model of the table generator with correspondence on generated ICANN documents",
             "Proof: for any table passing table_ok, a name is valid at t iff its right-most label lower-cased is a key, t is not before the parsed delegation date and not after the parsed removal date when one is recorded; "
             "the 'ever' test ignores dates; the lint errs iff the non-IP common name or a DNS name fails at notBefore. table_ok and key uniqueness are re-checked by the kernel on the ~1570-entry table dumped from the running build; "
-            "the date parser model is compared with time.Parse on every table string and malformed variants; HasValidTLD is compared at delegation/removal +-1s of every entry under several spellings.",
+            "the date parser model is compared with time.Parse on every table string and malformed variants; HasValidTLD is compared at delegation/removal +-1s of every entry under several spellings. "
+            "Future regenerations: the table generator (cmd/zlint-gtld-update: delegatedGTLDs, validateGTLDs, the TLD-list reader and the merge of renderGTLDMap) is modelled (Kernels.GtldUpdate); whatever the two ICANN documents say, a table it writes has "
+            "only entries keyed by their own name with a parseable delegation date and an empty or parseable removal date, and one delegated entry with an unparseable date makes it write nothing (c18_regen_*); tied to the code by running the real "
+            "generator (built with a verif probe that serves the documents from memory) on generated document pairs and comparing the printed table with the model in Coq.",
             "DESIGN.md 5/C18", "strings.ToLower is modelled for ASCII, invalid UTF-8 and the two non-ASCII code points that fold onto ASCII letters; other runes stay non-ASCII (sufficient because keys are ASCII, which is part of table_ok)."),
     "C06": (True, "Coq meta-theorem over the life cycle + kernel-checked obligation over per-lint status sets regenerated by an SSA translator + observation of every lint on the whole corpus",
             "Proof (partial): the framework adds only NA/NE/fatal, so a lint whose body statuses are all permitted by its prefix never violates the naming contract, for every object, configuration and entry point (c06_meta); "
             "the per-lint sets of status constants that can flow into a result are regenerated from go/ssa on every run and the kernel checks 'permitted by the prefix or a listed known finding', that all names carry a prefix, "
-            "and that every status was resolved to a defined constant. Explored, not proved: that the translator over-approximates every return path (every status observed on the corpus must lie in the static set).",
+            "and that every status was resolved to a defined constant. Explored, not proved: that the translator over-approximates every return path (every status observed on the corpus and zoo, under the empty configuration and under user configurations with changed options, unknown and misspelt keys, must lie in the static set).",
             "DESIGN.md 5/C06", "The SSA translator (harness/facts.go) is trusted to over-approximate; nine genuine (lint, status) findings are listed in known_findings.txt."),
     "C15": (True, "Coq theorems over the CLI model (decode dispatch, fail-closed, output = library result, exit status, summary rows) + base64 round-trip theorem + in-Coq correspondence and differential runs of the built binary",
             "Proof: whatever the tool prints for an input is the marshalled library result plus a newline; PEM/DER/base64 renderings of one certificate give one output (base64 decode-after-encode, also line-wrapped, is a theorem; "
@@ -147,7 +151,7 @@ def main():
         "setup_cmd": "./check setup",
         "hooks": {
             "guard": "verif",
-            "enable": "go build -tags verif -overlay /verif/build/overlay.json (accessor files /verif/hooks/*.go are overlaid onto packages lint, util and lints/rfc; /repo is not edited for instrumentation)",
+            "enable": "go build -tags verif -overlay /verif/build/overlay.json (accessor files /verif/hooks/*.go are overlaid onto packages lint, util, lints/rfc and cmd/zlint-gtld-update; /repo is not edited for instrumentation)",
             "baseline_off_cmd": BASELINE_OFF,
             "source_commits": [],
             "add_only": True,
